@@ -360,4 +360,17 @@ def Sample.unguardedSetter : Program :=
   { fns := [{ name := "set", exported := true, queryEntry := false, atoms := [], assume := [], body := .sink ⟨.mut, 0⟩ }],
     sinkNames := ["SetData"] }
 
+/-- a setter whose guard returns an error (`refuse` event before the `ret`) -/
+def Sample.refusingBody : Stmt :=
+  .seq (.ite (.or .query .view) (.seq (.sink ⟨.refuse, 1⟩) .ret) .skip) (.sink ⟨.mut, 0⟩)
+
+def Sample.refusingSetter : Program :=
+  { fns := [{ name := "set", exported := true, queryEntry := false, atoms := [], assume := [], body := Sample.refusingBody }],
+    sinkNames := ["SetData", "error return"] }
+
+/-- the same setter with a guard that returns without an error -/
+def Sample.swallowingSetter : Program :=
+  { fns := [{ name := "set", exported := true, queryEntry := false, atoms := [], assume := [], body := Sample.guardedBody }],
+    sinkNames := ["SetData"] }
+
 end Aergo.HostApi
